@@ -962,6 +962,14 @@ func c39GenHostile(g *vkit.Rand, zhdr []byte, giant uint32) *c39Hostile {
 		f := c39CraftFrame(g, zhdr, &zfirst, giant)
 		h.Frames = append(h.Frames, f)
 		h.Stream = append(h.Stream, f.Bytes...)
+		switch f.Kind {
+		case "hdr-length+1", "hdr-length-random", "hdr-length-below-fixed-part":
+			// The declared length lets the inflater run past this frame. Whatever
+			// followed would be inflated as if it were compressed data and its
+			// output taken for length prefixes of unpredictable size (up to 4 GiB
+			// each, on every worker): such a frame ends the stream.
+			return h
+		}
 	}
 	ping := c39Ctl(6, 0, 4, be32(77))
 	h.Frames = append(h.Frames, c39HFrame{Bytes: ping, Kind: "ping"})
@@ -1465,7 +1473,7 @@ func c39(r *vkit.Run) {
 	if d := os.Getenv("VERIF_C39_DEV_DIV"); d != "" { // development only: smaller run
 		fmt.Sscan(d, &div)
 	}
-	nRT := r.N(12000, 400000) / div
+	nRT := r.N(8000, 250000) / div
 	nMutPer := 2
 	if os.Getenv("VERIF_C39_DEV_NOMUT") != "" {
 		nMutPer = 0
@@ -1500,14 +1508,14 @@ func c39(r *vkit.Run) {
 
 	phase("roundtrip+mutations")
 	// ---- phase 2b (parallel): crafted hostile streams, announcements <= 128 KiB
-	nCraft := r.N(40000, 800000) / div
+	nCraft := r.N(30000, 600000) / div
 	vkit.Parallel(nCraft, 0, func(i int) {
 		g := r.Rng("craft", i)
 		h := c39GenHostile(g, zhdr, 128<<10)
 		c39ReadHostile(r, st, h, false)
 		nt := false
-		for _, f := range h.Frames[:len(h.Frames)-1] {
-			if f.Kind != "random" {
+		for _, f := range h.Frames {
+			if f.Kind != "random" && f.Kind != "ping" {
 				nt = true
 			}
 		}
@@ -1516,7 +1524,7 @@ func c39(r *vkit.Run) {
 
 	phase("crafted")
 	// ---- phase 3 (single goroutine): allocation bound on crafted streams and on valid sequences
-	nAlloc := r.N(8000, 100000) / div
+	nAlloc := r.N(6000, 80000) / div
 	for i := 0; i < nAlloc; i++ {
 		g := r.Rng("alloc", i)
 		var h *c39Hostile
